@@ -301,6 +301,10 @@ def main():
                             {"col": ["alpha", "beta", "gamma", "delta"], "row": ["r1", "r2", "r3", "r4"], "vary": True},
                             {"col": ["x+y", "a b", "p&q", "delta"], "row": ["r 1", "r-2", "r3", "r4"]}):
                     cases.append({"tables": sh, "hdr": list(hdr), "labels": lab})
+    # a label shared by the FIRST body column / row and exactly one later one, with unequal numbers of header rows and columns
+    for sh in shapes[:4]:
+        for hdr in ((1, 0), (0, 1), (2, 1), (1, 2), (2, 0)):
+            cases.append({"tables": sh, "hdr": list(hdr), "labels": {"col": ["fruit", "beta", "gamma", "fruit", "delta"], "row": ["veg", "r2", "r3", "veg", "r5"]}})
     # more than one header row / column: the label is the cell next to the body; the cells above / left of it carry other text,
     # or (cross) the label of the neighbouring column / row
     for sh in shapes[:5]:
